@@ -5,20 +5,29 @@ use crate::runtime::RunState;
 use crate::symbol::Span;
 use crate::{dprintln, AsmParser};
 
-pub fn eval(state: &mut RunState, line: &str) {
+/// `orig` is the address of the first statement of the program (`Debugger::orig`).
+pub fn eval(state: &mut RunState, orig: u16, line: &str) {
     // Required to make temporarily 'static
     // SAFETY: `line` is not used after being dropped (i.e. not returned or used in a greater
     // scope)
     let line_static = unsafe { &*(line as *const str) };
-    if let Err(err) = eval_inner(state, line_static) {
+    if let Err(err) = eval_inner(state, orig, line_static) {
         eprintln!("{:?}", err);
     }
 }
 
 /// Wrapper to group errors into one location
-fn eval_inner(state: &mut RunState, line: &'static str) -> Result<()> {
+fn eval_inner(state: &mut RunState, orig: u16, line: &'static str) -> Result<()> {
+    // The statement is given the line number of the statement just before the program counter
+    // (statement `n` lives at address `orig + n - 1`), because `execute` adds PC-relative offsets
+    // to `state.pc()` as it is: the address of the *next* instruction. With it, `bit_offs` yields
+    // `label_line - asm_line - 1`, and `pc + offset == orig + label_line - 1`, the address of the
+    // label, wherever the PC currently is. All arithmetic is modulo 2^16, like `bit_offs`.
+    let asm_line = state.pc().wrapping_sub(orig);
+
     // Parse
-    let stmt = AsmParser::new_simple(line)?.parse_simple()?;
+    // (the parser counts lines from one past the statement's, as it did when this was `0`)
+    let stmt = AsmParser::new_simple(line, asm_line.wrapping_add(1))?.parse_simple()?;
 
     match stmt {
         // Don't allow any branch instructions
@@ -81,7 +90,7 @@ fn eval_inner(state: &mut RunState, line: &'static str) -> Result<()> {
     }
 
     // Check labels
-    let mut asm = AsmLine::new(0, stmt, Span::dummy());
+    let mut asm = AsmLine::new(asm_line, stmt, Span::dummy());
     asm.backpatch()?;
 
     // Compile and execute
